@@ -32,6 +32,11 @@ Mutations caught (private copy, each gives VIOLATION lines with new signatures):
      (projection of columns() lost)                             -> frozen_c10: next
   N8 _result_cy.py _manyrow_getter: ``if num is None: num = yield_per`` removed
                                                                 -> chunk/yield_per2: fetchmany(None)
+  N9 result.py FilterResult.yield_per: ``@_generative`` removed (memoized getter keeps the old batch size)
+                                                                -> iter/scalars: fetchmany(1) ; yield_per(1) ; fetchmany(None)
+  N10 result.py Result.yield_per: ``@_generative`` removed      -> iter/-: fetchmany(1) ; yield_per(1) ; fetchmany(None)
+  (not caught, and not a property change: BufferedRowCursorFetchStrategy.yield_per leaving _bufsize
+   unchanged only alters internal buffering, the rows and batches delivered are the same)
 """
 import warnings
 from collections.abc import Sequence
@@ -57,9 +62,11 @@ META = dict(
     "strategy, scalars, mappings, columns, tuples, yield_per and their combinations, before or after the filter object is made) x every row list "
     "of 0..3 (quick) / 0..4 (thorough) rows over 3 row values whose projections collide (duplicates, NULL, an unhashable JSON variant) is explored "
     "as a state machine: all consumption ops (next, iter-then-next, live iterator, fetchone, fetchmany 1/2/[3]/None, fetchall, all, list, partitions "
-    "first/all with 2/None, first, one, one_or_none, scalar, scalar_one, scalar_one_or_none, close, freeze; for filter views also ops on the "
-    "parent Result) are applied on a fresh replay of the history and compared with the list model (value or exception class, Row._fields, "
-    ".closed). States are deduplicated on (model state, fetch-strategy buffer fingerprint) and BFS runs until no new state appears, so the "
+    "first/all with 2/None, first, one, one_or_none, scalar, scalar_one, scalar_one_or_none, close, freeze, and yield_per(k) in the middle "
+    "of a history - after it every size-less fetchmany()/partitions() must deliver batches of exactly the most recent k; for filter views "
+    "also ops, incl. yield_per, on the parent Result) are applied on a fresh replay of the history and compared with the list model (value or exception class, Row._fields, "
+    ".closed). States are deduplicated on (model state, fetch-strategy buffer fingerprint, yield_per captured by the memoized row getters of "
+    "the Result and of the view) and BFS runs until no new state appears, so the "
     "result holds for op sequences of every length over this alphabet. A 13-row list exercises buffer growth.",
     level_note="Trusted: vf/models/result_ref.py (about 250 lines, no SQLAlchemy import) and the SQLite driver. Where the documentation leaves an "
     "outcome open the model accepts the allowed set: fetchmany()/partitions() without size and without yield_per may return any non-empty prefix; "
@@ -72,10 +79,14 @@ META = dict(
     rule="state = (source, view, row list, cursor index, seen sets, closure, live-iterator flag, buffer fingerprint); transition = one op on a "
     "replayed state, executed on the implementation and the model; non-trivial = applied mid-stream (0 < consumed < n) on a list of >= 2 rows",
     assumptions=["single-threaded use of a Result", "row values are ints/strings/None/lists; uniqueness by value",
-                 "SQLite returns rows in ORDER BY order", "view modifiers are applied before the first fetch (yield_per after a fetch is documented as unsupported)"],
+                 "SQLite returns rows in ORDER BY order",
+                 "unique()/columns()/scalars()/mappings() are applied before the first fetch; yield_per() also at any later point",
+                 "a live iterator and a mid-history yield_per are explored separately, not combined in one history"],
     bounds=dict(
-        quick="fixpoint (all op-sequence lengths) for all row lists of 0..3 rows (0..2 for the unhashable variant and ORM sources) x 17 sources (6 primary x 19 views, the others x 8-9 views); 13-row list x 9 sources x 3 views",
-        thorough="fixpoint for all row lists of 0..4 rows (0..3 ORM) x 25 sources x <=22 views, fetchmany(3) added; 13-row list x 9 sources x 3 views",
+        quick="fixpoint (all op-sequence lengths) for all row lists of 0..3 rows (0..2 for the unhashable variant and ORM sources) x 17 sources (6 primary x 19 views, the others x 8-9 views); 13-row list x 9 sources x 3 views; "
+        "mid-history yield_per(1|2) (parent Result of a filter view: 1) on 6 sources x 5 views",
+        thorough="fixpoint for all row lists of 0..4 rows (0..3 ORM) x 25 sources x <=22 views, fetchmany(3) added; 13-row list x 9 sources x 3 views; "
+        "mid-history yield_per(0|1|2|3) (parent: 0|1) on every source and view for row lists of 0..3 rows",
     ),
 )
 
@@ -116,7 +127,7 @@ SINGLE = ("next", "iter1", "fetchone", "hold_next")
 MANY = ("fetchmany", "part1", "partall")
 
 
-def alphabet(cfg, tier, long_=False):
+def alphabet(cfg, tier, long_=False, yp_ops=(), yp_ops_base=()):
     """[(target, name, arg)] simplest first; availability by facet kind"""
     V = cfg.view
     ops = []
@@ -129,7 +140,7 @@ def alphabet(cfg, tier, long_=False):
     ops.append(("v", "iter1", None))
     for k in sizes:
         ops.append(("v", "fetchmany", k))
-    open_many_ok = not (cfg.two_facets and V.uniq is not None and cfg.yield_per is None)
+    open_many_ok = True  # ref.enabled() withholds the size-less ops where the batch is unspecified
     if open_many_ok:
         ops.append(("v", "fetchmany", None))
     ops += [("v", "fetchall", None), ("v", "all", None), ("v", "list", None)]
@@ -150,8 +161,14 @@ def alphabet(cfg, tier, long_=False):
         B = cfg.base
         ops += [("b", "fetchone", None), ("b", "fetchmany", 1), ("b", "fetchmany", 2), ("b", "all", None),
                 ("b", "first", None), ("b", "one", None), ("b", "scalar_one_or_none", None), ("b", "close", None), ("b", "freeze", None)]
-        if not (B.uniq is not None and cfg.yield_per is None):
-            ops.append(("b", "fetchmany", None))
+        ops.append(("b", "fetchmany", None))
+    # yield_per(k) in the middle of a history, through the object the program talks to and, for
+    # filter views, through the parent Result as well
+    for k in yp_ops:
+        ops.append(("v", "yield_per", k))
+    if cfg.two_facets and not long_:
+        for k in yp_ops_base:
+            ops.append(("b", "yield_per", k))
     return ops
 
 
@@ -206,6 +223,9 @@ def observe(cfg, env, op):
         if name == "hold_new":
             env.held = iter(r)
             return ("0",), rows_out
+        if name == "yield_per":
+            x = r.yield_per(arg)
+            return (("0",) if x is r else ("?", "yield_per returned %r" % (x,))), rows_out
         if name in ("fetchone", "first", "one", "one_or_none"):
             x = getattr(r, name)()
             if x is None:
@@ -266,6 +286,12 @@ F5 = ("CursorResult: an iterator obtained before the result was exhausted by ano
       "AttributeError ('NoneType' object has no attribute 'fetchone') instead of StopIteration")
 
 
+F7 = ("yield_per() on the parent Result after a filter view (scalars()/mappings()) has already fetched without a size: the view's "
+      "memoized _manyrow_getter keeps the previous yield_per, so view.fetchmany()/view.partitions() ignore the new batch size")
+F8 = ("yield_per(0) (documented: 'a value below 1 fetches all rows for the next buffer'): size-less fetchmany() returns [] and "
+      "partitions() yields nothing although rows remain (the non-unique _manyrow_getter passes 0 as the size)")
+
+
 def _flat_items(form):
     if form[0] == "L":
         return list(form[1])
@@ -297,6 +323,25 @@ def diagnose(cfg, src, st, hist_, op, obs):
             return F6
     if src.merged and st.closed in ("hard", "any") and obs != ref.RCE and obs[0] != "?":
         return F2
+    seq_all = [h[1] for h in hist_] + [name]
+    if src.chunked and "yield_per" in seq_all:
+        # ChunkedIteratorResult.yield_per() rebuilds self.iterator and so discards the chunk it was in the
+        # middle of (TODO in the source): same root cause as F3
+        last_yp = max(i for i, x in enumerate(seq_all) if x == "yield_per")
+        if any(x not in ("yield_per", "hold_new", "close") for x in seq_all[:last_yp]):
+            return F3
+    if name in MANY and arg is None:
+        got = _flat_items(obs) if obs[0] in ("L", "P") else ([] if obs == ("X", "StopIteration") else None)
+        remaining = [cfg.item(F, p) for _, p, _ in ref._scan(cfg, st, F)]
+        if got is not None and remaining:
+            if target == "v" and cfg.two_facets and got == remaining[:len(got)]:
+                ops_ = list(hist_)
+                last_b = max((i for i, h in enumerate(ops_) if h[0] == "b" and h[1] == "yield_per"), default=None)
+                if last_b is not None and not any(h[0] == "v" and h[1] == "yield_per" for h in ops_[last_b:]) and any(
+                        h[0] == "v" and h[1] in MANY for h in ops_[:last_b]):
+                    return F7
+            if not got and st.yp is not None and st.yp < 1 and F.uniq is None:
+                return F8
     if src.dynamic:
         # a single-row fetch left part of a chunk in self.iterator and a later fetchmany()/partitions()
         # replaced that iterator: rows are lost (possibly noticed only by a later op when rows are equal)
@@ -353,7 +398,18 @@ class Explorer:
         self.rec, self.src, self.vname, self.variant, self.idxs = rec, src, vname, variant, tuple(idxs)
         self.steps = VIEWS[vname]
         self.cfg = ref.Config(src.model_rows(variant, idxs), src.keys, self.steps, yield_per=src.yield_per, scalar_source=src.scalar_source)
-        self.ops = alphabet(self.cfg, tier, long_)
+        yp_ops = yp_base = ()
+        if not (src.orm and variant == "h" and any(s[0] == "unique" for s in self.steps)):  # ORM: yield_per + unique() is refused
+            if long_:
+                yp_ops = (5,) if tier == "quick" else (2, 5)
+            elif tier == "thorough":
+                if len(self.idxs) <= 3:
+                    yp_ops, yp_base = (1, 2, 3, 0), (1, 0)
+            elif src.name in YP_SOURCES_Q and vname in YP_VIEWS_Q:
+                yp_ops, yp_base = (1, 2), (1,)
+        # a live iterator and a mid-history yield_per are explored separately (deviation bound 1)
+        self.cfg.separate_features = True
+        self.ops = alphabet(self.cfg, tier, long_, yp_ops, yp_base)
         self.cfgkey = (src.name, vname, variant, self.idxs)
         self.long_ = long_
         # documented: "Can't use the ORM yield_per feature in conjunction with unique()" (the ORM's own
@@ -365,7 +421,7 @@ class Explorer:
                     history=[list(h) for h in hist_], op=list(op), long=self.long_)
 
     def key(self, env, ms, tag):
-        return (self.cfgkey, ref.canon(self.cfg, ms[0]), rw.fingerprint(env.base), tag)
+        return (self.cfgkey, ref.canon(self.cfg, ms[0]), rw.fingerprint(env.base, env.view), tag)
 
     def root(self):
         env = build(self.src, self.variant, self.idxs, self.steps)
@@ -422,9 +478,11 @@ class Explorer:
             # hidden state of the dynamic chunk iterator: size of the chain in use and how many
             # single-row fetches went through it
             if op[1] in MANY:
-                tag = (op[2] if op[2] is not None else cfg.yield_per, 0)
+                tag = (op[2] if op[2] is not None else st.yp, 0)
+            elif op[1] == "yield_per":
+                tag = (op[2], 0)
             elif op[1] in SINGLE:
-                tag = ((tag[0] if tag else cfg.yield_per), (tag[1] if tag else 0) + 1)
+                tag = ((tag[0] if tag else st.yp), (tag[1] if tag else 0) + 1)
         nms = (ns, tag)
         return nms, self.key(env, nms, tag)
 
@@ -443,6 +501,8 @@ LONG_VIEWS = ["-", "unique", "scalars"]
 ORM_VIEWS = ("-", "unique", "unique_s", "scalars", "scalars.unique", "mappings", "columns10", "yield_per2", "unique.yield_per2")
 
 
+YP_SOURCES_Q = ("iter", "chunk", "chunk_dyn", "cur", "cur_sr1", "orm")
+YP_VIEWS_Q = ("-", "unique", "yield_per2", "scalars", "mappings")
 PRIMARY_Q = ("iter", "chunk", "cur", "cur_sr1", "frozen_cur", "merged")
 SECONDARY_VIEWS_Q = ("-", "unique", "scalars", "scalars.unique", "unique.mappings", "columns10", "yield_per2", "unique.yield_per2")
 
